@@ -401,11 +401,11 @@ def r5_server_context(ck, cx):
 
 def run(ck, tier):
     cx = Ctx()
-    r1_sequential_validate(ck, cx)
-    r2_sequential_getset(ck, cx)
-    r3_sparse(ck, cx)
-    r4_context_offset(ck, cx)
-    r5_server_context(ck, cx)
+    ck.guard(r1_sequential_validate, ck, cx)
+    ck.guard(r2_sequential_getset, ck, cx)
+    ck.guard(r3_sparse, ck, cx)
+    ck.guard(r4_context_offset, ck, cx)
+    ck.guard(r5_server_context, ck, cx)
     ck.assume('Python slice, dict and set semantics are trusted')
     ck.assume('histories of operations are not decided; the rules fix the shape of every address computation')
     return cx.idx
